@@ -7,7 +7,9 @@ CFG = {'streams': [{'name': 'C12',
                             'case.impl.notes): 1 = (a) the same DSL text loaded 21x in one process did not always give the same canonical AST '
                             'dump / the same Debug+Display text of the error; 2 = (b) an execution of ONE loaded File (one function table, one '
                             'Variables; 5x strict + 5x lazy on the same parsed tree, then 12 executions interleaved over three trees) differs '
-                            'from the isolated run (fresh load, fresh tables, single run) in the canonical graph incl. node numbering, the '
+                            'from the isolated run (fresh load, fresh tables, single run) -- or (b2) an execution of one loaded File under CHANGING caller globals '
+                            '(defaulted globals omitted / supplied / omitted again, a required global missing in between; both modes) differs from the '
+                            'isolated run under the same globals -- in the canonical graph incl. node numbering, the '
                             'pretty_print text, the key-sorted JSON, or the Display+Debug text of the error; 4 = (c) one of 8 threads sharing '
                             '&File and &Functions (48 executions on thread-private tree copies) observed something else than the isolated '
                             "run; 8 = (d) the caller's Variables::iter() changed or the function table (stdlib + counting probe) answers a "
@@ -15,7 +17,7 @@ CFG = {'streams': [{'name': 'C12',
                             '(fresh hash seeds) regenerating the same case from the same generator state reports another hash of (load '
                             'observation, 6 isolated runs); 32 = the text inside CheckError::UnusedCaptures(..) is not Model/HashOrder.v '
                             'unused_message of the generated capture names (evaluated by coqc); 64 = a worker thread died'}],
- 'rule': 'one case = one DSL text x three generated Python sources (1-6 statements or corpus; the third with 1-2 injected syntax faults in 30%). '
+ 'rule': '60% of the texts also declare a global with a default that a stanza reads (40% of those supply a value); one case = one DSL text x three generated Python sources (1-6 statements or corpus; the third with 1-2 injected syntax faults in 30%). '
          'Texts: 28% programs of the typed generator of gen.rs over the whole statement/expression grammar (globals, inherit, shorthands, scan, '
          'scoped variables; redrawn up to 5x until the loader accepts), 22% exactly one unused-captures fault (query shapes with 3/4/5/6/8 captures '
          'named from a pool of 26 + 3 underscore names, shuffled, 0/1/2/all used, between 0-3 known-good stanzas), 12% two to four scoped '
